@@ -19,6 +19,7 @@ uexp = z3.Function("uexp", z3.RealSort(), z3.RealSort())
 usqrt = z3.Function("usqrt", z3.RealSort(), z3.RealSort())
 str_of_int = z3.IntToStr
 repr_of = z3.Function("repr_of", z3.IntSort(), z3.StringSort())
+pow2 = z3.Function("pow2", z3.IntSort(), z3.IntSort())       # 2**n for n >= 0; facts instantiated by contracts
 
 
 class Cfg:
@@ -200,6 +201,8 @@ def arith(cfg: Cfg, op, a, b):
                 for _ in range(y):
                     r = r * x
                 return VInt(r)
+            if is_conc(x) and x == 2:
+                return VInt(pow2(z_int(y)))
             raise Unsupported("int ** symbolic")
         if isinstance(op, ast.Div):
             if conc:
